@@ -411,8 +411,6 @@ Definition read_obs (st : wstate) (i : Z) : per tobs :=
 Definition every {A} (step : Z) (l : list A) (d : A) : list A :=
   map (fun j => nthZ l (j * step) d) (zseq ((zlen l + step - 1) / step)).
 Definition list_min (l : list Z) : Z := match l with [] => 0 | x :: r => fold_right Z.min x r end.
-Definition last_with (ti : list (Z * Z)) (mx : Z) : Z * Z :=
-  fold_left (fun acc c => if fst c =? mx then c else acc) ti (0, 0).
 
 (* EventIterator._load_data for one table (None: the table has no column in the index
    table, so self._data has no entry for it) *)
@@ -420,8 +418,7 @@ Definition load_table (st : wstate) (ss se step : Z) (t : tid) : option (list (l
   if hascol st t then
     let ti := map (fun r => get r t) (every step (py_slice (idx st) ss se) zero_cells) in
     let tmp_start := list_min (map fst ti) in
-    let last := last_with ti (list_max (map fst ti)) in
-    let tmp_end := fst last + snd last in
+    let tmp_end := list_max (map (fun c => fst c + snd c) ti) in
     let tmp := py_slice (get (rowsOf st) t) tmp_start tmp_end in
     Some (map (fun c => py_slice tmp (fst c - tmp_start) (fst c - tmp_start + snd c)) ti)
   else None.
@@ -514,6 +511,24 @@ Definition getitem_slice (st : wstate) (k : option Z) (a b s : option Z) : exn +
   let start := if start <? 0 then start + n else start in
   let stop := if stop <? 0 then stop + n else stop in
   iterate st (Z.min (reader_k st k) (stop - start)) a b s.
+
+(* HDF5Reader.get_waveforms(event_id=i): the event's block of the waveform dataset, located by
+   _get_table_slice (start, start+length of the index row) *)
+Definition file_waveforms (st : wstate) (i : Z) : exn + list row :=
+  if negb (avail st W) then inl EValue
+  else if negb (hascol st W) then inl EKey
+  else if (i <? 0) || (n_events st <=? i) then inl EIndex
+  else let sl := cell (idx st) i W in
+       inr (py_slice (get (rowsOf st) W) (fst sl) (fst sl + snd sl)).
+(* HDF5Reader.get_waveforms(event_id=i, waveform_type=k):
+   if wf_index >= stop-start: raise ValueError; return wf_data[start+wf_index] *)
+Definition file_waveform (st : wstate) (i k : Z) : exn + row :=
+  if negb (avail st W) then inl EValue
+  else if negb (hascol st W) then inl EKey
+  else if (i <? 0) || (n_events st <=? i) then inl EIndex
+  else let sl := cell (idx st) i W in
+       if snd sl <=? k then inl EValue
+       else inr (nthZ (get (rowsOf st) W) (fst sl + k) []).
 
 (* ------------------------------------------------------------------ FileGenerator *)
 Record gstate := mkG {
@@ -617,7 +632,8 @@ Inductive file_res :=
 Inductive query_res := QErr (code : Z) | QOk (l : list Z) | QGenOk (items : list (list Z * Z)) (stopped : bool).
 Inductive query :=
   | QLen (f : nat) | QIter (f : nat) (k : option Z) | QInt (f : nat) (k : option Z) (key : Z)
-  | QSlice (f : nat) (k : option Z) (a b s : option Z) | QGen (k : Z) (fs : list Z).
+  | QSlice (f : nat) (k : option Z) (a b s : option Z) | QGen (k : Z) (fs : list Z)
+  | QWf (f : nat) (i k : Z) | QWfEv (f : nat) (i : Z).
 
 Definition counters_of (st : wstate) : list Z := per_list (cntOf st) ++ [nidx st].
 (* run the ops; collect outcome codes and the counters at the end of each session *)
@@ -659,6 +675,8 @@ Definition run_query (sts : list wstate) (q : query) : query_res :=
   | QIter f k => fps (reader_iter (file f) k)
   | QInt f k key => match getitem_int (file f) key with inl e => QErr (exn_code e) | inr o => QOk [fp_obs o] end
   | QSlice f k a b s => fps (getitem_slice (file f) k a b s)
+  | QWf f i k => match file_waveform (file f) i k with inl e => QErr (exn_code e) | inr r => QOk r end
+  | QWfEv f i => match file_waveforms (file f) i with inl e => QErr (exn_code e) | inr rs => QOk (concat rs) end
   | QGen k fs =>
     match filegen (map (fun i => file (Z.to_nat i)) fs) k with
     | inl e => QErr (exn_code e)
